@@ -188,9 +188,76 @@ def _replace_paths(text, mapping):
     return text
 
 
+ITEMS_FILE = __import__("os").path.join(__import__("os").path.dirname(__import__("os").path.dirname(__import__("os").path.dirname(
+    __import__("os").path.abspath(__file__)))), "baseline", "items-a6bc6ede.json")
+
+
+def relocate(raw):
+    """Module moves: an item of the pinned tree (type, function, constant) that no longer exists under its path, while
+    exactly one NEW item of the same kind and crate carries the same name (longest needed path suffix), has been moved to
+    another module; it is renamed back to the path the rules use.  Types first (method paths follow their type)."""
+    try:
+        base = json.load(open(ITEMS_FILE))
+    except OSError:
+        return raw, []
+    notes = []
+
+    def current(kind):
+        out = set()
+        for d in raw.values():
+            if kind == "adts":
+                out |= set(a["def"] for a in d["adts"])
+            elif kind == "fns":
+                out |= set(b["def"] for b in d["bodies"] if b["kind"] in ("Fn", "AssocFn"))
+            elif kind == "consts":
+                out |= set(c["def"] for c in d["consts"])
+        return out
+
+    def match(kind, mapping_so_far):
+        cur = current(kind)
+        # paths as they will read after the renames decided so far
+        def fix(p):
+            for old in sorted(mapping_so_far, key=len, reverse=True):
+                p = re.sub(re.escape(old) + r"(?![A-Za-z0-9_])", lambda _m: mapping_so_far[old], p)
+            return p
+        cur_fixed = {fix(p): p for p in cur}
+        b = set(base.get(kind, []))
+        missing = sorted(b - set(cur_fixed))
+        fresh = sorted(p for p in cur_fixed if p not in b and not p.startswith("<"))
+        out = {}
+        for P_ in missing:
+            if P_.startswith("<"):
+                continue
+            segs = P_.split("::")
+            for k in range(1, len(segs)):
+                tail = "::" + "::".join(segs[-k:])
+                cands = [c for c in fresh if c.split("::")[0] == segs[0] and c.endswith(tail) and c not in out.values()]
+                rivals = [m_ for m_ in missing if m_ != P_ and m_.split("::")[0] == segs[0] and m_.endswith(tail)]
+                if len(cands) == 1 and not rivals:
+                    out[cur_fixed[cands[0]] if cur_fixed[cands[0]] == cands[0] else cands[0]] = P_
+                    notes.append("%s %s is %s (moved to another module)" % (kind[:-1], cands[0], P_))
+                    break
+                if not cands:
+                    break
+        return out
+
+    mapping = {}
+    mapping.update(match("adts", mapping))
+    mapping.update(match("fns", mapping))
+    mapping.update(match("consts", mapping))
+    if not mapping:
+        return raw, notes
+    out = {}
+    for fname, d in raw.items():
+        out[fname] = json.loads(_replace_paths(json.dumps(d), mapping))
+    return out, notes
+
+
 def canonicalize(raw):
     """Returns (facts with canonical names, notes)."""
+    raw, move_notes = relocate(raw)
     types, fields, fns, notes = discover(raw)
+    notes = move_notes + notes
     if not (types or fields or fns):
         return raw, notes
     out = {}
